@@ -403,6 +403,9 @@ Definition run_words (ws : list string) : string :=
   | ["shenc"; ver; rnd; sid; suite; comp; exts] =>
       show_opt (enc_server_hello {| sh_version := z_of_string ver; sh_random := bytes_of_hex rnd; sh_session_id := hex_or_empty sid;
                                     sh_suite := z_of_string suite; sh_compression := z_of_string comp; sh_extensions := exts_of_string exts |})
+  | ["hrrenc"; ver; rnd; sid; suite; comp; exts] =>
+      show_opt (enc_hello_retry_request {| sh_version := z_of_string ver; sh_random := bytes_of_hex rnd; sh_session_id := hex_or_empty sid;
+                                           sh_suite := z_of_string suite; sh_compression := z_of_string comp; sh_extensions := exts_of_string exts |})
   | ["certenc"; certs] => show_opt (enc_certificate (hexlist_of_string certs))
   | ["shdenc"] => show_opt enc_server_hello_done
   | ["certreqenc"; types; sa; cas] =>
